@@ -78,6 +78,7 @@ type Run struct {
 	Results  []*HarnessResult
 	Stats    xexec.Stats
 	SolverS  float64
+	SolverIO float64
 	Queries  int
 	FuncsEnc map[string]int
 	mu       sync.Mutex
@@ -283,6 +284,7 @@ func (r *Run) Explore(name string, fn *ssa.Function) *HarnessResult {
 				r.FuncsEnc[k] += v
 			}
 			r.SolverS += solver.Time.Seconds()
+			r.SolverIO += solver.IOTime.Seconds()
 			r.Queries += solver.Queries
 			r.mu.Unlock()
 			mu.Unlock()
